@@ -215,7 +215,7 @@ func compareAnswers(e chain.M, qs []objQuery, want, got Answers) {
 			nobj[q.mod] = nobj[q.mod].(int64) + 1
 		}
 		w, g := want[q.mod][q.id], got[q.mod][q.id]
-		if w == g {
+		if w == g || (w == zhRefunded && (strings.HasPrefix(g, "ERR ") || g == `{"fees":[]}`)) {
 			continue
 		}
 		dur[q.mod] = false
